@@ -41,6 +41,9 @@ struct Worker
   uint64_t first_realtime_in_op{0};
   long sleeps_in_op{0};
   long total_sleeps{0};
+  int user_clock_reads_in_op{0};
+  uint64_t first_user_ts_in_op{0}; // first value a harness-provided UserClockSource handed to this operation
+  uint64_t max_sleep_ns_in_op{0}; // longest sleep the operation asked for (a blocked log call's retry interval)
   uint32_t tid{0};
 };
 
@@ -90,13 +93,14 @@ inline uint64_t virtual_clock_read(bool realtime)
   return v;
 }
 
-inline void virtual_sleep()
+inline void virtual_sleep(uint64_t requested_ns = 0)
 {
   Core& c = core();
   Worker* w = tl_worker;
   if (!w) { ++c.t0_sleeps; return; }
   if (w->state != WState::Running) return;
   ++w->sleeps_in_op;
+  if (requested_ns > w->max_sleep_ns_in_op) w->max_sleep_ns_in_op = requested_ns;
   ++w->total_sleeps;
   std::unique_lock<std::mutex> lk(c.m);
   w->state = WState::Blocked;
@@ -155,6 +159,9 @@ inline WState run_on(Worker* w, std::function<void()> f, bool stall_in_clock = f
   w->realtime_reads_in_op = 0;
   w->first_realtime_in_op = 0;
   w->sleeps_in_op = 0;
+  w->max_sleep_ns_in_op = 0;
+  w->user_clock_reads_in_op = 0;
+  w->first_user_ts_in_op = 0;
   c.cv.notify_all();
   c.cv.wait(lk, [w] { return w->state != WState::Running; });
   return w->state;
